@@ -86,6 +86,7 @@ class Facts:
         self.dir = facts_dir
         self.crates = []
         self.bodies = {}      # normalised path -> Body
+        self.consts = {}      # normalised path -> Body of a named constant's initialiser
         self.by_canon = {}    # crate-qualified canonical def path -> Body
         self.hir = {}         # normalised path -> hir tree
         self.types = {}
@@ -110,6 +111,9 @@ class Facts:
             kind = d['kind']
             for rb in d['bodies']:
                 b = Body(rb, kind)
+                if rb.get('def_kind', '').startswith(('Const', 'AssocConst', 'Static')):
+                    self.consts[self.norm(b.path)] = b      # initialisers of named constants: never call-graph nodes
+                    continue
                 key = b.path
                 if kind != 'lib' and key in self.bodies:
                     key = kind + '::' + key
